@@ -679,6 +679,22 @@ func (e *Exec) syncIntrinsic(fn *ssa.Function, name string, args []Value) (Value
 			return nil
 		}), nil)
 		return nil, true
+	case name == "(*sync.Pool).Put":
+		return nil, true
+	case name == "(*sync.Pool).Get":
+		// no pooling: a fresh value from New, or nil
+		pp := args[0].(PtrV)
+		st := fn.Signature.Recv().Type().(*types.Pointer).Elem().Underlying().(*types.Struct)
+		for i := 0; i < st.NumFields(); i++ {
+			if st.Field(i).Name() == "New" {
+				nf := e.load(PtrV{Obj: pp.Obj, Path: append(append([]int{}, pp.Path...), i)})
+				if c, ok := nf.(ClosureV); ok && c.Fn == nil {
+					return IfaceV{}, true
+				}
+				return e.call(nf, nil, "sync.Pool.New"), true
+			}
+		}
+		return IfaceV{}, true
 	case name == "(*sync.Once).Do":
 		l := e.lockOf(args[0].(PtrV))
 		e.schedPoint("once")
